@@ -10,23 +10,67 @@ C02_KINDS = {"equivocation", "proposal-equivocation", "sent-before-durable"}
 
 
 def env_behaviours(ctx, n, *, max_crash, max_ops, seed_off=0):
-    """n schedules from CsEnv random walks (one per walk: the simulator also prints sibling successors)."""
-    bs = ctx.behaviours("consensus", "Gen_CsEnv", "Gen_CsEnv.cfg",
-                        constants=dict(MaxOps=max_ops, Depth=max_ops, MaxCrash=max_crash),
-                        simulate="num=%d" % max(40, n), depth=3 * max_ops, seed=ctx.seed + seed_off, timeout=900)
+    """n schedules: half from the round-structured generator CsScript, half from the free-form CsEnv."""
+    a = _walks(ctx, "Gen_CsScript", n - n // 2, dict(MaxOps=max_ops + 8, MaxCrash=max_crash, MaxRound=2), 3 * max_ops + 20, seed_off)
+    b = _walks(ctx, "Gen_CsEnv", n // 2, dict(MaxOps=max_ops, Depth=max_ops, MaxCrash=max_crash), 3 * max_ops, seed_off + 1)
+    return a + b
+
+
+def _walks(ctx, gen, n, consts, depth, seed_off):
+    """(the simulator also prints sibling successors of every walk; they are valid behaviours too)"""
+    bs = ctx.behaviours("consensus", gen, gen + ".cfg", constants=consts,
+                        simulate="num=%d" % max(150, 2 * n), depth=depth, seed=ctx.seed + seed_off, timeout=900)
     rnd = random.Random(ctx.seed + seed_off)
     rnd.shuffle(bs)
-    # prefer schedules that differ in their first operations
-    seen, out = set(), []
+    # TLC generates, this ranks: half of the budget goes to the walks that look most likely to drive the engine through
+    # locking / unlocking / committing / restarting in the middle of it, the other half is taken as it comes
+    seen, uniq = set(), []
     for b in bs:
         k = json.dumps([b["me"]] + b["steps"][:6], sort_keys=True)
-        if k in seen:
-            continue
-        seen.add(k)
-        out.append(b)
+        if k not in seen:
+            seen.add(k)
+            uniq.append(b)
+    ranked = sorted(uniq, key=lambda b: -interest(b))
+    out = ranked[:n // 2]
+    for b in uniq:
         if len(out) >= n:
             break
+        if b not in out:
+            out.append(b)
     return out
+
+
+def interest(b):
+    """Heuristic score of a CsEnv walk: proposals that are followed by prevote/precommit quorums for the same value,
+    value changes after a possible lock, crashes placed after such quorums, late votes of an earlier round."""
+    score = 0
+    proposed = {}
+    polka = {}
+    locked_at = None
+    me = b["me"]
+    for i, s in enumerate(b["steps"]):
+        if s["op"] == "proposal":
+            proposed[s["r"]] = s["val"]
+            if s["val"] == "B%d" % ((1 + s["r"]) % 4) or s["pol"] >= 0:
+                score += 1
+        elif s["op"] == "votes":
+            k = len(s["from"])
+            if s["type"] == "pv" and s["val"] != "nil" and k >= 2 and (proposed.get(s["r"]) == s["val"] or (1 + s["r"]) % 4 == me):
+                score += 3
+                polka[s["r"]] = s["val"]
+                if locked_at is not None and s["r"] > locked_at[0] and s["val"] != locked_at[1]:
+                    score += 3          # a later polka for something else: unlock path
+                if locked_at is None:
+                    locked_at = (s["r"], s["val"])
+            if s["type"] == "pc" and k >= 2:
+                score += 2 if s["val"] != "nil" and polka.get(s["r"]) == s["val"] else 1
+            if locked_at is not None and s["r"] < max(polka) and s["type"] == "pv":
+                score += 1              # late prevotes of an earlier round
+        elif s["op"] == "crash":
+            score += 2 if polka else 0
+        elif s["op"] == "wait":
+            score += 1 if i > 0 else 0
+    return score
 
 
 def directed(ctx):
@@ -94,7 +138,8 @@ def run_nodes(ctx, behaviours, kinds, shards, test="TestNode"):
     for ln in lines:
         if ln.get("ev") == "signprop" and ln.get("pol", -1) >= 0:
             feats["reproposal"] += 1
-    ctx.cov.update({"runs_with_" + k: v for k, v in feats.items()})
+    for k, v in feats.items():
+        ctx.cov["runs_with_" + k] = ctx.cov.get("runs_with_" + k, 0) + int(v)
     ctx.notes.append("trace validation: %d recorded events of %d real engine executions checked against CsContract; "
                      "%d executions rejected for this property%s"
                      % (len(lines), len(cases), len(bad),
